@@ -21,7 +21,7 @@ def expected_method_token(opts, world):
 
 def layout_case(tag, world, opts, prestate=None, input_bytes=None, config_text=None, readonly_inputs=False, bystanders=False):
     """Create the world directory of a case and write config + spreadsheet (+ pre-state)."""
-    w = runner.World(tag)
+    w = runner.World(tag, opts.get("cwd_shape"))
     cfg_text, ods = W.materialize(world) if (input_bytes is None or config_text is None) else (None, None)
     cfg_text = config_text if config_text is not None else cfg_text
     ods = input_bytes if input_bytes is not None else ods
@@ -149,6 +149,11 @@ def apply_prestate(w, opts, world, items):
             os.makedirs(os.path.join(out, "archive"), exist_ok=True)
             with open(os.path.join(out, "archive", "old.ods"), "wb") as fh:
                 fh.write(b"old")
+        elif k == "many_old_logs":
+            os.makedirs(os.path.join(w.work, "log"), exist_ok=True)
+            for j in range(9):
+                with open(os.path.join(w.work, "log", "rp2_2019_0%d_01_00_00_00_%06d.log" % (j + 1, i)), "w", encoding="utf-8") as fh:
+                    fh.write("old log %d\n" % j)
         elif k == "old_log":
             os.makedirs(os.path.join(w.work, "log"), exist_ok=True)
             with open(os.path.join(w.work, "log", "rp2_2020_01_01_00_00_00_%06d.log" % i), "w", encoding="utf-8") as fh:
